@@ -476,6 +476,12 @@ def subclass_check(obj, key, V, sdk_doc, sdk_xml: bytes, case) -> Optional[C.Fai
     return None
 
 
+def entity_char(ch: str) -> str:
+    """one character inside an entity's replacement text: a character reference is expanded when the entity is DECLARED, so '&' and
+    '<' would be parsed again when the entity is included — they need a second level of escaping"""
+    return f"&#38;#{ord(ch)};" if ch in "&<" else f"&#x{ord(ch):X};"
+
+
 XML_SURFACES = ["xml-cdata", "xml-charref", "xml-entity", "xml-comment", "xml-b64wrap"]
 
 
@@ -524,7 +530,7 @@ def xml_surface_checks(sdk_xml: bytes, expected, V, rng: random.Random, case, on
                     continue                           # a carriage return in an entity's replacement text is normalised on inclusion
                 k = rng.randint(0, len(text))
                 part = text[k:]
-                esc = "".join(f"&#x{ord(ch):X};" for ch in part)          # entity value: character references are expanded on declaration
+                esc = "".join(entity_char(ch) for ch in part)
                 doctype = f'<!DOCTYPE x [<!ENTITY vf "{esc}">]>'
                 rep = "".join(f"&#x{ord(ch):X};" for ch in text[:k]) + "&vf;"
             data = ('<?xml version="1.0" encoding="utf-8"?>' + doctype + raw.replace("@@VFTOKEN@@", rep)).encode("utf-8")
